@@ -152,6 +152,12 @@ func readErrTerm(v *FnVerifier, st *State, ok string) string {
 	v.smt.assert(v.closedFact(errT, types.Universe.Lookup("error").Type(), v.alloc(st), 0))
 	v.smt.assert(eq(ok, eq(errT, "(mk-iface 0 0)")))
 	v.notRepoSentinel(errT)
+	// a decoding error is an I/O or format error of the codec, never the storage layer's "not found"
+	if _, has := v.eng.sentinels["github.com/tokenized/pkg/storage.ErrNotFound"]; has {
+		nf := v.sentinelTerm("github.com/tokenized/pkg/storage.ErrNotFound")
+		cause := v.smt.declareFun("uf!errCause", []string{"Iface"}, "Iface")
+		v.smt.assert(and(not(eq(errT, nf)), not(eq(app(cause, errT), nf))))
+	}
 	return errT
 }
 
